@@ -393,7 +393,7 @@ func (V *Verifier) DecodeRT(mt *MsgType, enc *EncInfo, props []string) []*Obliga
 func (V *Verifier) DecodeSafe(mt *MsgType, props []string) []*Obligation {
 	x := V.msgExec(mt, mt.Dec, "safe", props)
 	x.emitSafe = true
-	st, _, _, buf := x.startMsg(mt, "q")
+	st, recvObj, _, buf := x.startMsg(mt, "q")
 	u0 := st.get(buf).Seq
 	x.old = st.clone()
 	x.onReturn = func(s *State, res []Value) {
@@ -401,11 +401,23 @@ func (V *Verifier) DecodeSafe(mt *MsgType, props []string) []*Obligation {
 		en := errNilOf(res)
 		u := s.get(buf).Seq
 		x.oblige(s, "ensures", "suffix@"+tag, App("suffixof", SBool, u, u0), "what is left unread is a suffix of the input")
+		// ownership (C16): whatever the decoder stores into the message is freshly allocated, never a view of the buffer
+		for i, fv := range s.get(recvObj).Fields {
+			if sl, ok := fv.(VSlice); ok && sl.Arr != nil && s.written[fmt.Sprintf("%d.%d", recvObj.ID, i)] {
+				ok := sl.Arr.Prov == "fresh" || (sl.IsNil != nil && sl.IsNil.IsTrue())
+				x.obligeProps(s, "frame", fmt.Sprintf("frame/fresh-field(%s)@%s", mt.Struct.Field(i).Name(), tag), BoolC(ok), "a decoded list does not alias the source buffer or the old content (provenance: "+sl.Arr.Prov+")", []string{"C16"})
+			}
+		}
 		x.oblige(s, "ensures", "min-consumption@"+tag, Implies(en, Le(Add(Len(u), IntC(V.minWidth(mt))), Len(u0))), fmt.Sprintf("a successful decode consumes at least the %d fixed bytes of the format", V.minWidth(mt)))
 		if V.checkAlloc {
-		x.obligeProps(s, "alloc", "alloc/success@"+tag, Implies(en, Le(s.alloc, Add(IntC(allocB), Mul(IntC(allocA), Sub(Len(u0), Len(u)))))), "allocation on success is bounded by a constant plus a multiple of the bytes consumed", []string{"C10"})
-		x.obligeProps(s, "alloc", "alloc/failure@"+tag, Implies(Not(en), Le(s.alloc, Add(IntC(allocB), Mul(IntC(allocA), Len(u0))))), "allocation on failure is bounded by a constant plus a multiple of the bytes present", []string{"C10"})
+			a, b := V.allocConsts(mt)
+			x.obligeProps(s, "alloc", "alloc/success@"+tag, Implies(en, Le(s.alloc, Add(IntC(b), Mul(IntC(a), Sub(Len(u0), Len(u)))))), fmt.Sprintf("allocation on success <= %d + %d x bytes consumed", b, a), []string{"C10"})
+			x.obligeProps(s, "alloc", "alloc/failure@"+tag, Implies(Not(en), Le(s.alloc, Add(IntC(b), Mul(IntC(a), Len(u0))))), fmt.Sprintf("allocation on failure <= %d + %d x bytes present", b, a), []string{"C10"})
 		}
+	}
+	if V.checkAlloc {
+		a, b := V.allocConsts(mt)
+		x.obligeProps(st, "alloc", "alloc/constants-are-small", BoolC(a <= maxAllocA && b <= maxAllocB), fmt.Sprintf("the bound of %s is %d + %d x bytes: a small constant plus a small multiple of the input", mt.Name, b, a), []string{"C10"})
 	}
 	x.execAll(st)
 	if x.returns == 0 {
@@ -686,4 +698,74 @@ func (V *Verifier) minWidthTerm(tag *Term) *Term {
 		}
 	}
 	return App("minwidth", SInt, tag)
+}
+
+// allocConsts measures, for a message type, numerals (A, B) such that its Decode allocates at most
+// B + A x (bytes consumed) on success and B + A x (bytes present) on failure. The numerals are only
+// candidates: DecodeSafe proves the bound with them (alloc/success, alloc/failure obligations).
+func (V *Verifier) allocConsts(mt *MsgType) (int64, int64) {
+	if V.allocK == nil {
+		V.allocK = map[string][2]int64{}
+	}
+	if k, ok := V.allocK[mt.Name]; ok {
+		return k[0], k[1]
+	}
+	V.allocK[mt.Name] = [2]int64{maxAllocA + 1, maxAllocB + 1} // cycle guard: recursive types have no bound
+	x := V.msgExec(mt, mt.Dec, "measure", nil)
+	st, _, _, _ := x.startMsg(mt, "q")
+	x.old = st.clone()
+	var a, b int64
+	unknown := false
+	x.onReturn = func(s *State, res []Value) {
+		if s.allocC > b {
+			b = s.allocC
+		}
+		if s.allocA > a {
+			a = s.allocA
+		}
+		if s.allocUnknown {
+			unknown = true
+		}
+	}
+	x.execAll(st)
+	if unknown {
+		a, b = maxAllocA+1, maxAllocB+1
+	}
+	if a < 1 {
+		a = 1
+	}
+	b += 64
+	V.allocK[mt.Name] = [2]int64{a, b}
+	return a, b
+}
+
+// allocConstsOfTag: the constants of the decoder that a (possibly table-selected) type tag stands for.
+func (V *Verifier) allocConstsOfTag(tag *Term) (int64, int64) {
+	var a, b int64 = 1, 64
+	found := false
+	var walk func(t *Term)
+	walk = func(t *Term) {
+		if t.Op == "app" && len(t.Args) == 0 && strings.HasPrefix(t.Name, "tag_") {
+			if mt := V.msgTypeByTag(t.Name); mt != nil {
+				found = true
+				ta, tb := V.allocConsts(mt)
+				if ta > a {
+					a = ta
+				}
+				if tb > b {
+					b = tb
+				}
+			}
+			return
+		}
+		for _, c := range t.Args {
+			walk(c)
+		}
+	}
+	walk(tag)
+	if !found {
+		// an arbitrary (caller-supplied or generic) part: no numerals are known
+		return maxAllocA + 1, maxAllocB + 1
+	}
+	return a, b
 }
